@@ -115,6 +115,10 @@ pub trait Property: Sync {
     fn generate(&self, rng: &mut Rng, case_no: u64) -> Scenario;
     /// Deterministic: materialises the scenario under `root`, runs it, evaluates the oracle.
     fn evaluate(&self, sc: &Scenario, root: &Path, stats: &mut Stats) -> Option<Violation>;
+    /// Enumeration checks: restrict the scenario to the item that failed (from the witness).
+    fn narrow(&self, _sc: &Scenario, _v: &Violation) -> Option<Scenario> {
+        None
+    }
     /// probes that must be non-zero after a quick run (workload reach)
     fn required_probes(&self) -> Vec<&'static str> {
         vec![]
@@ -295,7 +299,11 @@ pub fn run_check(prop: &dyn Property, tier: &str, seed: u64, verif: &Path) -> Ch
         violation_count = 1;
         let root = case_root(prop.id(), case_no);
         let original_steps = sc.steps.len();
-        let with_choices = fill_choices(&sc, &recorded);
+        let narrowed = prop.narrow(&sc, &v);
+        let with_choices = match narrowed {
+            Some(n) => n,
+            None => fill_choices(&sc, &recorded),
+        };
         let (min_sc, min_v, minimised) = crate::shrink::minimise(prop, &with_choices, &v, &root, tier);
         // fresh evaluation of the minimised scenario for the digests
         let mut st = Stats::default();
